@@ -1032,8 +1032,10 @@ func exec(op string) string {
 		if d, ok := parseEx(op); ok {
 			return runEx(d)
 		}
-	case "spec", "specr":
+	case "spec", "specr", "specc":
 		return "accept"
+	case "kf-batch-loser":
+		return kfBatchLoser()
 	case "kf-d10":
 		// SimpleRetryPolicy{1}, query NOT marked idempotent, first attempt fails: is the write sent again?
 		d := scenario{kind: "q", ctor: "s", policy: "simple:1", polAt: "q", obs: "-", idem: "0", sp: "-", ctx: "-", cons: 1, api: "e", reps: 1,
@@ -1500,8 +1502,32 @@ func main() {
 		}
 		out.Case(op, "accept", "specr/"+c.kind+"/"+strings.SplitN(c.policy, ":", 2)[0]+"/"+c.mode, true)
 	}
+	// speculative executions stepped one micro-step at a time, cancellation at every point: a fixed grid for every
+	// seed, then random schedules
+	cgrid := speccGrid()
+	for i := 0; i < len(cgrid)+speccRuns(tier) && atomic.LoadInt64(&hung) == 0; i++ {
+		var c speccScn
+		if i < len(cgrid) {
+			c = cgrid[i]
+		} else {
+			c = genSpecc(r)
+		}
+		op := runSpecCancel(c, r)
+		if strings.HasPrefix(op, "fatal") {
+			fmt.Fprintln(os.Stderr, "c13:", op)
+			os.Exit(3)
+		}
+		out.Case(op, "accept", "specc/"+c.kind+"/"+strings.SplitN(c.policy, ":", 2)[0], true)
+	}
 	out.Close(map[string]interface{}{"concurrent_attempts_counted": atomic.LoadInt64(&concAttempts),
 		"barrier_rounds": atomic.LoadInt64(&barRounds), "barrier_rounds_releasing_several_answers": atomic.LoadInt64(&barMulti)})
+}
+
+func speccRuns(tier string) int {
+	if tier == "thorough" {
+		return 900
+	}
+	return 60
 }
 
 func specrRuns(tier string) int {
@@ -1608,6 +1634,21 @@ func probe() {
 		fmt.Sscan(os.Args[2], &n)
 	}
 	t0 := time.Now()
+	if len(os.Args) > 3 && os.Args[3] == "cancel" {
+		g := speccGrid()
+		for i := 0; i < len(g)+n; i++ {
+			var c speccScn
+			if i < len(g) {
+				c = g[i]
+			} else {
+				c = genSpecc(r)
+			}
+			t := time.Now()
+			op := runSpecCancel(c, r)
+			fmt.Printf("%6.1fms %s\n", float64(time.Since(t).Microseconds())/1000, op)
+		}
+		return
+	}
 	for i := 0; i < n; i++ {
 		c := genSpecr(r, i)
 		t := time.Now()
